@@ -66,18 +66,23 @@ def power(x, k):
 
 
 class H1(Case):
+    """Formulation: eigenbasis quantities rho0', P' are the free symbols (run B is then free of
+    W); the original-basis inputs of run A are rho0 = SU rho0', P = SU P' SUd.  Claim at
+    nu = 1:  A_n = SU B_n.  Homogeneous form proved:  A_n = nu^(c n) SU B_n  with c counting
+    the W-pairs met per step (2 for the rotated dk=0 tensor or the in/out transforms, 2 per
+    non-identity propagator)."""
     stubs = STUBS
     env = {"np_proxy_modules": ("oqupy.pt_tempo",)}
     functions = ("BaseTempoBackend.initialize_mps_mpo", "TempoBackend.*", "MeanFieldTempoBackend.*", "PtTempo._init_simple_process_tensor",
                  "SimpleProcessTensor.get_mpo_tensor", "SimpleProcessTensor.compute_caps", "PtTempoBackend.*",
                  "system_dynamics.compute_dynamics", "operators.left_right_super")
 
-    def __init__(self, method, N, kind, K=None):
-        self.method, self.N, self.kind, self.K = method, N, kind, K
-        self.id = "H1/%s_%s_N%d_K%s" % (method, kind, N, K)
-        self.bounds = {"method": method, "d": 2, "N": N, "unitary": kind, "dkmax": K}
+    def __init__(self, method, N, kind, K=None, props="gen"):
+        self.method, self.N, self.kind, self.K, self.props = method, N, kind, K, props
+        self.id = "H1/%s_%s_N%d_K%s_%s" % (method, kind, N, K, props)
+        self.bounds = {"method": method, "d": 2, "N": N, "unitary": kind, "dkmax": K, "propagators": props}
         self.timeout_s = 900
-        self.first_timeout_s = 120
+        self.first_timeout_s = 300
 
     def run(self, inp):
         d, D, N, K = 2, 4, self.N, self.K
@@ -86,14 +91,26 @@ class H1(Case):
         SU = np.kron(W, Wd.T)          # vec(W rho W^dagger)
         SUd = np.kron(Wd, W.T)         # vec(W^dagger rho W)
         infl = lib.Influences(inp, d, K)
-        P1 = [lib.gen_prop(inp, "p%d" % k, d) for k in range(N)]
-        P2 = [lib.gen_prop(inp, "q%d" % k, d) for k in range(N)]
-        rho0 = inp.arr("r", (D,))
-        P1e = [SUd.dot(P).dot(SU) for P in P1]
-        P2e = [SUd.dot(P).dot(SU) for P in P2]
+        ident = np.identity(D) if inp.mode == "real" else sym.obj_eye(D)
+
+        def mk(name, k):
+            if self.props == "id" or (self.props == "gen0" and (k > 0 or name == "q")):
+                return ident, 0
+            return lib.gen_prop(inp, "%s%d" % (name, k), d), 1
+        P1e, P2e, npairs = [], [], []
+        for k in range(N):
+            a, na = mk("p", k)
+            b, nb = mk("q", k)
+            P1e.append(a)
+            P2e.append(b)
+            npairs.append(2 + 2 * na + 2 * nb)      # W-pairs met in step k of run A
+        P1 = [P if P is ident else SU.dot(P).dot(SUd) for P in P1e]
+        P2 = [P if P is ident else SU.dot(P).dot(SUd) for P in P2e]
+        rho0e = inp.arr("r", (D,))
+        rho0 = SU.dot(rho0e)
         if self.method == "tempo":
             A = lib.run_tempo(inp, rho0, infl, P1, P2, N, K, d, unitary=W)
-            B = [SU.dot(x) for x in lib.run_tempo(inp, SUd.dot(rho0), infl, P1e, P2e, N, K, d)]
+            B = lib.run_tempo(inp, rho0e, infl, P1e, P2e, N, K, d)
         elif self.method == "mf":
             def mf(r0, p1, p2, U):
                 be = MeanFieldTempoBackend([r0], 1.0, [infl], [U], [lambda step, f, df: (p1[step], p2[step])],
@@ -105,7 +122,7 @@ class H1(Case):
                     out.append(be.compute_step()[1][0])
                 return out
             A = mf(rho0, P1, P2, W)
-            B = [SU.dot(x) for x in mf(SUd.dot(rho0), P1e, P2e, np.identity(d))]
+            B = mf(rho0e, P1e, P2e, np.identity(d))
         else:
             p = ptmod.PtTempo.__new__(ptmod.PtTempo)
             oqupy.base_api.BaseAPIClass.__init__(p, None, None)
@@ -122,14 +139,17 @@ class H1(Case):
             A = [s.reshape(D) for s in lib.dynamics_states(sd.compute_dynamics(
                 lib.FakeSystem(d, P1, P2), initial_state=rho0.reshape(d, d), process_tensor=pt, progress_type="silent"))]
             pte = lib.run_pt_tempo(inp, infl, N, K, d)
-            B = [SU.dot(s.reshape(D)) for s in lib.dynamics_states(sd.compute_dynamics(
-                lib.FakeSystem(d, P1e, P2e), initial_state=SUd.dot(rho0).reshape(d, d), process_tensor=pte, progress_type="silent"))]
+            B = [s.reshape(D) for s in lib.dynamics_states(sd.compute_dynamics(
+                lib.FakeSystem(d, P1e, P2e), initial_state=rho0e.reshape(d, d), process_tensor=pte, progress_type="silent"))]
         obs = []
+        pairs = 0
         for n in range(N + 1):
-            lhs = A[n]
-            if nu is not None:
-                lhs = lhs * power(nu, 2 * n + 2)
-            obs.append(Ob.eq("covariance at step %d" % n, lhs, B[n]))
+            rhs = SU.dot(B[n])
+            if pairs:
+                rhs = rhs * power(nu, pairs)
+            obs.append(Ob.eq("covariance at step %d" % n, A[n], rhs))
+            if n < N:
+                pairs += npairs[n]
         return obs
 
 
@@ -203,8 +223,8 @@ class H2(Case):
         self.variant = variant
         self.id = "H2/diagonalisation_%s" % variant
         self.bounds = {"d": 3, "operator": variant}
-        self.timeout_s = 240
-        self.first_timeout_s = 240
+        self.timeout_s = 900
+        self.first_timeout_s = 900
 
     def operator(self, inp):
         v = self.variant
@@ -274,8 +294,11 @@ def _make_allclose(inp, contingent):
 
 
 def cases(tier):
-    cs = [H1("tempo", 1, "su2"), H1("pt", 2, "su2"), H1("mf", 1, "su2"), H1("tempo", 2, "rot"), H1("pt", 2, "rot"), H1("tempo", 2, "rot", K=1),
-          H2("p110"), H2("p123"), H2("p1m12"), H2("p011"), H2("sym_p")]
+    cs = [H1("tempo", 2, "su2", None, "id"), H1("tempo", 2, "su2", 1, "id"), H1("pt", 2, "su2", None, "id"), H1("pt", 2, "su2", 1, "id"),
+          H1("mf", 2, "su2", 1, "id"), H1("tempo", 1, "su2", None, "gen"), H1("mf", 1, "su2", None, "gen"), H1("pt", 2, "su2", None, "gen0"),
+          H1("tempo", 2, "rot", 1, "gen0"), H1("pt", 2, "rot", 1, "gen0"), H1("tempo", 3, "su2", 1, "gen0"), H1("pt", 3, "su2", 1, "gen0"),
+          H2("p110"), H2("p123"), H2("p011")]
     if tier == "thorough":
-        cs += [H1("tempo", 2, "su2"), H1("pt", 2, "su2"), H1("mf", 2, "rot"), H1("tempo", 3, "rot"), H1("pt", 3, "rot", K=1), H2("p212")]
+        cs += [H1("tempo", 3, "su2", 1, "id"), H1("pt", 3, "su2", 1, "id"), H1("mf", 3, "su2", None, "id"), H1("tempo", 2, "rot", None, "gen"),
+               H1("pt", 2, "rot", None, "gen"), H1("tempo", 2, "su2", None, "gen0"), H1("mf", 3, "su2", 1, "gen0"), H2("p212"), H2("p1m12")]
     return cs
